@@ -119,6 +119,14 @@ func makeSubject(cfg Cfg, count bool) Subject {
 		case "heap":
 			return newHeapSubj(cfg, floatDom(n, cfg.Cmp, off, true))
 		}
+	case "any":
+		d := anyDom(n, int(cfg.MapSeed>>40%uint64(len(anyPool))))
+		switch fam {
+		case "list":
+			return newListSubj(cfg, d)
+		case "sq":
+			return newSQSubj(cfg, d)
+		}
 	case "item":
 		d := itemDom(n, cfg.Cmp)
 		switch fam {
@@ -203,7 +211,7 @@ func genCfg(r *Rng, kinds []string, tier string) Cfg {
 		cfg.VDom = r.Range(2, 9)
 	}
 	cfg.MapSeed = r.U64()
-	cfg.Pool = 1
+	cfg.Pool = 2
 	if usesCmp(cfg.Kind) && familyOf(cfg.Kind) != "list" && cfg.Cmp == "nat" && (cfg.VCmp == "" || cfg.VCmp == "nat") && cfg.Elem != "item" && r.Bool() {
 		cfg.Ctor = "default" // New(): the default comparator path
 	}
